@@ -156,7 +156,13 @@ def stepEnc (k : Kind) (ev : Event) (op res : List String) : Except String (St Ã
         match res with
         | [j, d] =>
           match optTextOfTok j, textOfTok d with
-          | some j, some d => ok (.enc k (setField ev key (.float j d))) [if j.isNone then "float-nonfinite" else "float-finite"]
+          | some j, some d =>
+            -- hypothesis `Json.FloatsOk` of the round-trip theorems, checked on every oracle value
+            let tokOk := match j with
+              | none => true
+              | some r => !r.isEmpty && r.all Json.numChar && (Json.parseIntTok r).isNone
+            if tokOk then ok (.enc k (setField ev key (.float j d))) [if j.isNone then "float-nonfinite" else "float-finite"]
+            else .error "float-oracle-not-a-float-token"
           | _, _ => .error "bad-float-oracle"
         | _ => .error "bad-float-oracle"
       | _ => .error "bad-field-type"
